@@ -1,4 +1,5 @@
 import Ampy.Lemmas.Total
+import Ampy.Lemmas.Rename
 /-!
 Behind C08 (kernel pre-conditions): the cascade only ever consults a third-party kernel inside its documented
 domain.  Stated extensionally: two kernels that agree on every argument inside the documented domains give
@@ -27,18 +28,328 @@ structure KernAgree (K K' : Kern) : Prop where
 /-- `ptsOrder` returns a permutation of the positions (so LOWESS receives as many points as the set has). -/
 def PtsOrderOK (K : Kern) : Prop := ∀ l, isPermOf (K.ptsOrder l) l.length = true
 
+/-! ### generic congruences -/
+
+theorem mapM_congr_mem {ε β γ} (f g : β → Except ε γ) :
+    ∀ (l : List β), (∀ c ∈ l, f c = g c) → l.mapM f = l.mapM g
+  | [], _ => by rw [List.mapM_nil, List.mapM_nil]
+  | a :: l, h => by
+    rw [List.mapM_cons, List.mapM_cons, h a List.mem_cons_self,
+      mapM_congr_mem f g l (fun c hc => h c (List.mem_cons_of_mem _ hc))]
+
+/-! ### `metarize` -/
+
+/-- `np.percentile` is reached only behind the emptiness test of `calc_base_height`. -/
+theorem calcBase_agree {K K' : Kern} (hA : KernAgree K K') (vals : List Rat) (lb q : Rat) :
+    calcBase K.pctl vals lb q = calcBase K'.pctl vals lb q := by
+  unfold calcBase
+  simp only
+  split
+  · rfl
+  · rename_i h
+    rw [hA.pctl _ _ (fun he => h (by rw [he]; rfl))]
+
+theorem selectSorted_agree {α} {K K' : Kern} (hA : KernAgree K K') (data : List (Hit α)) (mask : List Bool) :
+    selectSorted K.toMetK data mask = selectSorted K'.toMetK data mask := by
+  unfold selectSorted
+  rw [hA.dtOrder]
+
+theorem baseForMask_agree {α} {K K' : Kern} (hA : KernAgree K K') (P : Prms α) (data : List (Hit α))
+    (mask : List Bool) : baseForMask K.toMetK P data mask = baseForMask K'.toMetK P data mask := by
+  unfold baseForMask
+  rw [selectSorted_agree hA, calcBase_agree hA]
+
+/-- LOWESS receives as many points as the set has: at least two, unless there is exactly one (no call). -/
+theorem fluffiness_agree {K K' : Kern} (hA : KernAgree K K') (hp : PtsOrderOK K) (pts : List (Rat × Rat))
+    (hne : pts ≠ []) : fluffiness K.toMetK pts = fluffiness K'.toMetK pts := by
+  unfold fluffiness
+  split
+  · rfl
+  · rename_i h1
+    simp only
+    rw [← hA.ptsOrder]
+    have hlen : (applyPerm (K.ptsOrder (pts.map (·.1))) pts).length = pts.length :=
+      (applyPerm_perm _ _ (by have := hp (pts.map (·.1)); rwa [List.length_map] at this)).length_eq
+    have h2 : 2 ≤ (applyPerm (K.ptsOrder (pts.map (·.1))) pts).length := by
+      rw [hlen]
+      have := List.length_pos_iff.mpr hne
+      omega
+    rw [← hA.lowess _ h2]
+
+theorem mkRow_agree {α} [DecidableEq α] {K K' : Kern} (hA : KernAgree K K') (hp : PtsOrderOK K) (P : Prms α)
+    (w : Which) (data : List (Hit α)) (ids : List Int) (cid : Int) (h : IdsOK data ids)
+    (hc : cid ∈ clusterIds ids) :
+    mkRow K.toMetK P w data ids cid = mkRow K'.toMetK P w data ids cid := by
+  have hne : ((members data ids cid).filterMap fun h => h.height.map fun y => (h.dt, y)) ≠ [] := by
+    obtain ⟨m, hm, y, hy⟩ := members_ne_nil data ids cid h hc
+    apply List.ne_nil_of_mem (a := (m.dt, y))
+    rw [List.mem_filterMap]
+    exact ⟨m, hm, by rw [hy]; rfl⟩
+  unfold mkRow
+  simp only []
+  rw [← baseForMask_agree hA, ← fluffiness_agree hA hp _ hne]
+
 /-- The table of one level only consults `np.percentile` on non-empty selections and LOWESS on at least two
 points, for id columns meeting the id invariants. -/
 theorem metarize_agree {α} [DecidableEq α] (K K' : Kern) (P : Prms α) (w : Which) (ld : Bool) (data : List (Hit α))
     (ids : List Int) (hA : KernAgree K K') (hK : MetKOK K.toMetK P.basePerc) (hp : PtsOrderOK K) (h : IdsOK data ids)
     (ht0 : 0 ≤ P.t0) :
     metarize K.toMetK P w ld data ids = metarize K'.toMetK P w ld data ids := by
-  sorry
+  have _ := hK
+  have _ := ht0
+  unfold metarize
+  simp only []
+  rw [mapM_congr_mem (mkRow K.toMetK P w data ids) (mkRow K'.toMetK P w data ids) (clusterIds ids)
+    (fun c hc => mkRow_agree hA hp P w data ids c h hc)]
+  have hb : K.baseOrder = K'.baseOrder := funext hA.baseOrder
+  rw [hb]
+
+/-! ### `find_slices`, `find_groups` -/
+
+/-- Slicing clusters only when more than one hit has a height, and hands over one point per such hit. -/
+theorem sliceIds_agree {α} {K K' : Kern} (hA : KernAgree K K') (P : PPrms α) (data : List (Hit α)) :
+    sliceIds K P data = sliceIds K' P data := by
+  unfold sliceIds
+  simp only []
+  split
+  · rfl
+  · split
+    · rename_i h1 h2
+      cases hpts : scaledPoints data P.sliceDtScale P.sliceHScale (data.map fun _ => true) with
+      | error e => simp only [error_bind]
+      | ok pts =>
+        have hl := scaledPoints_length data _ _ pts hpts
+        simp only [ok_bind]
+        rw [hA.cluster _ _ _ (by omega)]
+    · rfl
+
+/-- Grouping clusters a bundle only when it has at least two hits. -/
+theorem groupBundle_agree {α} {K K' : Kern} (hA : KernAgree K K') (P : PPrms α) (data : List (Hit α))
+    (sids : List Int) (slices : Table) (bundle : List Nat) (gids : List (Option Int)) :
+    groupBundle K P data sids slices bundle gids = groupBundle K' P data sids slices bundle gids := by
+  unfold groupBundle
+  simp only []
+  generalize scaledPoints data P.grpDtScale _ _ = sp
+  cases sp with
+  | error e => simp only [error_bind]
+  | ok pts =>
+    simp only [ok_bind]
+    split
+    · rfl
+    · rename_i h
+      rw [hA.cluster _ _ _ (by omega)]
+
+theorem groupBase_agree {α} [DecidableEq α] {K K' : Kern} (hA : KernAgree K K') (P : PPrms α)
+    (data : List (Hit α)) (gids : List Int) (cid : Int) :
+    groupBase K P data gids cid = groupBase K' P data gids cid := by
+  unfold groupBase
+  rw [baseForMask_agree hA]
+
+theorem mergeLoop_agree {α} [DecidableEq α] {K K' : Kern} (hA : KernAgree K K') (P : PPrms α)
+    (data : List (Hit α)) : ∀ (fuel : Nat) (gids : List Int) (prelim : List (Int × Rat)),
+    mergeLoop K P data fuel gids prelim = mergeLoop K' P data fuel gids prelim := by
+  intro fuel
+  induction fuel with
+  | zero => intro gids prelim; rfl
+  | succ n ih =>
+    intro gids prelim
+    rw [mergeLoop, mergeLoop]
+    simp only [groupBase_agree hA, ih]
+
+theorem mergeCloseGroups_agree {α} [DecidableEq α] {K K' : Kern} (hA : KernAgree K K') (P : PPrms α)
+    (data : List (Hit α)) (gids : List Int) :
+    mergeCloseGroups K P data gids = mergeCloseGroups K' P data gids := by
+  unfold mergeCloseGroups
+  have h1 : groupBase K P data gids = groupBase K' P data gids := funext (groupBase_agree hA P data gids)
+  have h2 : K.prelimOrder = K'.prelimOrder := funext hA.prelimOrder
+  rw [h1, h2]
+  simp only [mergeLoop_agree hA]
+
+theorem groupIds_agree {α} [DecidableEq α] {K K' : Kern} (hA : KernAgree K K') (P : PPrms α)
+    (data : List (Hit α)) (sids : List Int) (slices : Table) :
+    groupIds K P data sids slices = groupIds K' P data sids slices := by
+  unfold groupIds
+  simp only [groupBundle_agree hA, mergeCloseGroups_agree hA]
+
+/-! ### `find_layers` -/
+
+/-- The mixtures are fitted on as many (rescaled) values as handed in, with `1 .. ncomp_max` components. -/
+theorem ncompFromGmm_agree {α} {K K' : Kern} (hA : KernAgree K K') (P : PPrms α) (vals : List Rat) (m : Nat)
+    (minSep : Rat) (h30 : 30 ≤ vals.length) (hm : m ≤ 3) :
+    ncompFromGmm K P vals m minSep = ncompFromGmm K' P vals m minSep := by
+  have hf : ∀ sc : List Rat, sc.length = vals.length →
+      ((List.range (min m (vals.eraseDups).length)).map fun i => K.gmm P.gmmScores sc (i + 1)) =
+      ((List.range (min m (vals.eraseDups).length)).map fun i => K'.gmm P.gmmScores sc (i + 1)) := by
+    intro sc hsc
+    apply List.map_congr_left
+    intro i hi
+    have := List.mem_range.mp hi
+    exact hA.gmm _ _ _ (by omega) (by omega) (by omega)
+  have e1 : K.bestProb = K'.bestProb := funext fun l => funext fun mp => hA.bestProb l mp
+  have e2 : K.argsort = K'.argsort := funext hA.argsort
+  have e3 : calcBase K.pctl = calcBase K'.pctl :=
+    funext fun v => funext fun lb => funext fun q => calcBase_agree hA v lb q
+  unfold ncompFromGmm
+  generalize P.gmmRescale = r
+  cases r with
+  | none =>
+    simp only []
+    rw [hf vals rfl, e1, e2, e3]
+  | some x =>
+    simp only []
+    rw [hf _ (Lay.gmmScaled_length (some x) vals), e1, e2, e3]
+
+theorem layerStep_agree {α} {K K' : Kern} (hA : KernAgree K K') (P : PPrms α) (data : List (Hit α))
+    (gids : List Int) (groups : Table) (st : List (Option Int) × List Int) (ind : Nat) :
+    Lay.layerStep K P data gids groups st ind = Lay.layerStep K' P data gids groups st ind := by
+  have hpos : ∀ cid, Lay.grpPos K data gids cid = Lay.grpPos K' data gids cid := by
+    intro cid
+    unfold Lay.grpPos
+    rw [hA.dtOrder]
+  unfold Lay.layerStep
+  simp only [hpos]
+  cases groups[ind]? with
+  | none => rfl
+  | some g =>
+    simp only []
+    split
+    · rfl
+    · rename_i hc
+      simp only [Bool.or_eq_true, decide_eq_true_eq, not_or, not_lt] at hc
+      have hn := fun ms => ncompFromGmm_agree hA P (Lay.grpHs data (Lay.grpPos K' data gids g.cid))
+        (min ((Lay.grpHs data (Lay.grpPos K' data gids g.cid)).eraseDups).length 3) ms hc.1.2
+        (Nat.min_le_right _ _)
+      simp only [hn]
+
+theorem layerIds_agree {α} [DecidableEq α] {K K' : Kern} (hA : KernAgree K K') (P : PPrms α)
+    (data : List (Hit α)) (gids : List Int) (groups : Table) :
+    layerIds K P data gids groups = layerIds K' P data gids groups := by
+  rw [Lay.layerIds_eq, Lay.layerIds_eq]
+  have : Lay.layerStep K P data gids groups = Lay.layerStep K' P data gids groups :=
+    funext fun st => funext fun ind => layerStep_agree hA P data gids groups st ind
+  rw [this]
+
+/-! ### the stages -/
+
+/-- The slice id column of a chunk, when present, meets the strong id invariant. -/
+def SidsExact {α} (c : Chunk α) : Prop := ∀ sids, c.sids = some sids → IdsExact c.data sids
+
+/-- The group id column of a chunk, when present, meets the strong id invariant. -/
+def GidsExact {α} (c : Chunk α) : Prop := ∀ gids, c.gids = some gids → IdsExact c.data gids
+
+theorem findSlices_agree {α} [DecidableEq α] {K K' : Kern} (hA : KernAgree K K') (P : PPrms α)
+    (hK : KernOK K P.basePerc) (hp : PtsOrderOK K) (hP : PrmsOK P) (c : Chunk α) :
+    findSlices K P c = findSlices K' P c := by
+  unfold findSlices
+  rw [← sliceIds_agree hA]
+  cases hs : sliceIds K P c.data with
+  | error e => simp only [error_bind]
+  | ok sids =>
+    simp only [ok_bind]
+    rw [metarize_agree K K' P.toPrms .slices _ c.data sids hA hK.met hp
+      (sliceIds_exact K P c.data P.basePerc hK sids hs).toOK hP.t0]
+
+theorem findSlices_sids {α} [DecidableEq α] (K : Kern) (P : PPrms α) (hK : KernOK K P.basePerc)
+    (c c1 : Chunk α) (h : findSlices K P c = .ok c1) : SidsExact c1 := by
+  unfold findSlices at h
+  simp only [bind, Except.bind, pure, Except.pure] at h
+  split at h
+  · cases h
+  · rename_i sids hs
+    split at h
+    · cases h
+    · cases h
+      intro s hs'
+      cases hs'
+      exact sliceIds_exact K P c.data P.basePerc hK sids hs
+
+theorem throw_bind {γ δ : Type} (e : AmpyErr) (g : γ → Except AmpyErr δ) :
+    ((throw e : Except AmpyErr γ) >>= g) = Except.error e := rfl
+
+theorem findGroups_agree {α} [DecidableEq α] {K K' : Kern} (hA : KernAgree K K') (P : PPrms α)
+    (hK : KernOK K P.basePerc) (hp : PtsOrderOK K) (hP : PrmsOK P) (c : Chunk α) (hc : SidsExact c) :
+    findGroups K P c = findGroups K' P c := by
+  unfold findGroups
+  cases hsi : c.sids with
+  | none => cases hsl : c.slices <;> simp only []
+  | some sids =>
+    cases hsl : c.slices with
+    | none => simp only []
+    | some sl =>
+      simp only []
+      split
+      · simp only [throw_bind]
+      · rw [← groupIds_agree hA]
+        cases hg : groupIds K P c.data sids sl with
+        | error e => simp only [error_bind]
+        | ok r =>
+          obtain ⟨gids, iso⟩ := r
+          simp only [ok_bind]
+          rw [metarize_agree K K' P.toPrms .groups false c.data gids hA hK.met hp
+            (groupIds_exact K P c.data P.basePerc hK sids sl (hc sids hsi) gids iso hg).toOK hP.t0]
+
+theorem findGroups_gids {α} [DecidableEq α] (K : Kern) (P : PPrms α) (hK : KernOK K P.basePerc)
+    (c c2 : Chunk α) (hc : SidsExact c) (h : findGroups K P c = .ok c2) : GidsExact c2 := by
+  unfold findGroups at h
+  cases hsl : c.slices with
+  | none => rw [hsl] at h; cases h
+  | some sl =>
+    cases hsi : c.sids with
+    | none => rw [hsl, hsi] at h; cases h
+    | some sids =>
+      rw [hsl, hsi] at h
+      simp only [bind, Except.bind, pure, Except.pure] at h
+      split at h
+      · cases h
+      · split at h
+        · cases h
+        · rename_i r hg
+          obtain ⟨gids, iso⟩ := r
+          simp only at h
+          split at h
+          · cases h
+          · cases h
+            intro g hg'
+            cases hg'
+            exact groupIds_exact K P c.data P.basePerc hK sids sl (hc sids hsi) gids iso hg
+
+theorem findLayers_agree {α} [DecidableEq α] {K K' : Kern} (hA : KernAgree K K') (P : PPrms α)
+    (hK : KernOK K P.basePerc) (hp : PtsOrderOK K) (hP : PrmsOK P) (c : Chunk α) (hc : GidsExact c) :
+    findLayers K P c = findLayers K' P c := by
+  unfold findLayers
+  cases hgi : c.gids with
+  | none => cases hgr : c.groups <;> simp only []
+  | some gids =>
+    cases hgr : c.groups with
+    | none => simp only []
+    | some gr =>
+      simp only []
+      rw [← layerIds_agree hA]
+      cases hl : layerIds K P c.data gids gr with
+      | error e => simp only [error_bind]
+      | ok r =>
+        obtain ⟨lids, nc⟩ := r
+        simp only [ok_bind]
+        rw [metarize_agree K K' P.toPrms .layers true c.data lids hA hK.met hp
+          (layerIds_exact K P c.data P.basePerc hK gids gr (hc gids hgi) lids nc hl).toOK hP.t0]
 
 /-- The whole cascade only consults the kernels inside their documented domains. -/
 theorem run_agree {α} [DecidableEq α] (K K' : Kern) (P : PPrms α) (checked : List (Hit α)) (hA : KernAgree K K')
     (hK : KernOK K P.basePerc) (hp : PtsOrderOK K) (hP : PrmsOK P) :
     run K P checked = run K' P checked := by
-  sorry
+  unfold run
+  simp only []
+  rw [← findSlices_agree hA P hK hp hP]
+  cases h1 : findSlices K P (construct P checked) with
+  | error e => simp only [error_bind]
+  | ok c1 =>
+    have hc1 := findSlices_sids K P hK _ c1 h1
+    simp only [ok_bind]
+    rw [← findGroups_agree hA P hK hp hP c1 hc1]
+    cases h2 : findGroups K P c1 with
+    | error e => simp only [error_bind]
+    | ok c2 =>
+      simp only [ok_bind]
+      exact findLayers_agree hA P hK hp hP c2 (findGroups_gids K P hK c1 c2 hc1 h2)
 
 end Ampy
